@@ -24,7 +24,7 @@ ASSUMPTIONS = ["pixels whose two bracketing samples exist only on different leve
                "a cell centre (but not on it) are skipped", "pool shim M1 with shuffled schedules"]
 REQUIRED_OBS = {"slices": 300, "pixels_decided": 20000, "class:boxface": 20, "class:gap-": 20,
                 "class:gap+": 20, "class:domainface": 10, "class:centre": 20, "out_of_domain_refused": 10,
-                "default_position": 5, "parallel": 50, "reuse": 5}
+                "default_position": 5, "parallel": 50, "reuse": 5, "cli_runs": 30}
 TIMEOUT = {"quick": 600, "thorough": 3000}
 NAMES = ["ax", "ay", "az", "tagx", "tagy", "tagz", "rnd"]
 
@@ -38,7 +38,7 @@ def cases(tier, seed):
         g = dict(seed=rng.randrange(10 ** 9), ndims=3, nlevels=1 + i % 3 if i % 7 else 4, bf=bf,
                  names=NAMES, payload="affine", base_blocks=(1, 3) if bf == 4 else (2, 4))
         if g["nlevels"] == 4:
-            g["bf"] = 2; g["base_blocks"] = (2, 3)
+            g["bf"] = 2; g["base_blocks"] = (2, 2); g["maxsz"] = 4
         if i % 5 == 4:
             g["full_refine"] = True
         for n in range(3):      # one case per normal: the 4-level plotfiles are the long poles
@@ -197,6 +197,41 @@ def run_case(case, work, rec):
             except Exception:
                 rec.count("out_of_domain_refused")
                 rec.ok(key, False)
+    # the mandoline entry point (array format) must save what the API returns for the same request
+    cli = common.repo_module("amr_kitchen.mandoline.cli")
+    for n in case.get("normals", [0, 1, 2]):
+        for _ in range(2):
+            limit = rng.choice([None] + list(range(finest + 1)))
+            pos = m.geo_low[n] + (m.geo_high[n] - m.geo_low[n]) * rng.random()
+            fl = rng.choice([["rnd", "grid_level"], ["a" + "xyz"[n], "tagx"], ["all"]])
+            serial = rng.random() < 0.5
+            out = os.path.join(work, "cli_slice")
+            args = ["mandoline", "-n", str(n), "-p", repr(pos), "-v"] + fl + ["-f", "array", "-o", out, "-V", "0"]
+            if limit is not None:
+                args += ["-L", str(limit)]
+            if serial:
+                args.append("-s")
+            args.append(path)
+            key = (digest, "cli", n, pos, limit, tuple(fl))
+            poison.set_poison(np.nan)
+            pools.CTL.reset(mode="inproc", seed=rng.randrange(10 ** 6))
+            try:
+                with common.argv(args):
+                    cli.main()
+                z = np.load(out + ".npz")
+                api = Mandoline(path, fields=list(fl), limit_level=limit, serial=True, verbose=0).slice(
+                    normal=n, pos=pos, fformat="return")
+            except (Exception, SystemExit) as e:
+                rec.violation(f"mandoline entry point raised {type(e).__name__}: {' '.join(args[1:-1])}", key=key,
+                              witness={"argv": args[1:-1], "exc": repr(e)[:300]})
+                continue
+            rec.count("cli_runs")
+            bad = [k for k in api if isinstance(api[k], np.ndarray) and (k not in z.files or not refparse.biteq(z[k], api[k]))]
+            if bad or float(z["slice_pos"]) != float(api["slice_pos"]):
+                rec.violation(f"mandoline entry point saved another slice than the API returns for the same request "
+                              f"(differing: {bad[:4]}): {' '.join(args[1:-1])}", key=key, witness={"argv": args[1:-1]})
+            else:
+                rec.ok(key, finest >= 1)
     # one Mandoline instance reused for several explicit slices == fresh instances
     if 0 not in case.get("normals", [0]):
         return
